@@ -18,7 +18,7 @@ logging.disable(logging.CRITICAL)
 import vbuild
 from autofit import exc
 from autofit.mapper.prior.abstract import Prior
-from autofit.mapper.prior.arithmetic.compound import CompoundPrior, NegativePrior, AbsolutePrior
+from autofit.mapper.prior.arithmetic.compound import CompoundPrior, ModifiedPrior, NegativePrior, AbsolutePrior
 from autofit.mapper.prior.arithmetic.assertion import (
     GreaterThanLessThanAssertion, GreaterThanLessThanEqualAssertion, CompoundAssertion, ComparisonAssertion)
 from autofit.mapper.prior_model.prior_model import Model
@@ -43,13 +43,14 @@ def build_operand(e, pool, foreign):
 
 def abstract_operand(obj, idmap):
     if isinstance(obj, NegativePrior):
-        return {"t": "unary", "op": "neg", "a": abstract_operand(obj.prior, idmap)}
+        return {"t": "unary", "op": "neg", "name": obj._prior_name, "a": abstract_operand(obj.prior, idmap)}
     if isinstance(obj, AbsolutePrior):
-        return {"t": "unary", "op": "abs", "a": abstract_operand(obj.prior, idmap)}
+        return {"t": "unary", "op": "abs", "name": obj._prior_name, "a": abstract_operand(obj.prior, idmap)}
     if isinstance(obj, ComparisonAssertion) or isinstance(obj, CompoundAssertion):
         return {"t": "assertion", "a": abstract_assertion(obj, idmap)}
     if isinstance(obj, CompoundPrior):
-        op = {"SumPrior": "+", "MultiplePrior": "*", "DivisionPrior": "/"}.get(type(obj).__name__, type(obj).__name__)
+        op = {"SumPrior": "+", "MultiplePrior": "*", "DivisionPrior": "/", "ModPrior": "%", "FloorDivPrior": "//"}.get(
+            type(obj).__name__, type(obj).__name__)
         return {"t": "arith", "op": op, "ln": obj._left_name, "rn": obj._right_name,
                 "l": abstract_operand(obj._left, idmap), "r": abstract_operand(obj._right, idmap)}
     return vbuild.abstract_model(af, obj, idmap)
@@ -137,8 +138,8 @@ def abstract_assertion(a, idmap):
 
 
 def collect_levels(obj, idmap, path, out):
-    """`_assertions` of every level (Model, Collection, CompoundPrior) with its path; raw __dict__ walk."""
-    if isinstance(obj, (Model, Collection, CompoundPrior)):
+    """`_assertions` of every level (Model, Collection, CompoundPrior, ModifiedPrior) with its path; raw __dict__ walk."""
+    if isinstance(obj, (Model, Collection, CompoundPrior, ModifiedPrior)):
         if obj._assertions:
             out.append({"path": list(path), "asserts": [abstract_assertion(a, idmap) for a in obj._assertions]})
         for k, v in obj.__dict__.items():
